@@ -32,10 +32,10 @@ class C24(dfir.DfirSpec):
         defers = "[" + "; ".join("{| d_before := %d; d_after := %d; d_lazy := %s |}" % (a, b, "true" if l else "false")
                                  for a, b, l in p.defers) + "]"
         checks = "[" + "; ".join("(%d%%nat, %s)" % (k, sp) for k, sp in p.checks) + "]"
-        return "c24_chk %s prog_%d %s %s %s %s %s %s" % (
+        return dfir.guard(case["prog"], "c24_chk %s prog_%d %s %s %s %s %s %s" % (
             "true" if case["mode"] == "avail" else "false", case["prog"], defers, checks,
             dfir.g_bools(p.sinks), dfir.g_hist(case["hist"]), dfir.g_outs(res["outs"]),
-            "[" + "; ".join(str(x) for x in res["obs"]) + "]")
+            "[" + "; ".join(str(x) for x in res["obs"]) + "]"))
 
 
 def main(ctx):
